@@ -78,6 +78,30 @@ fn check(s: &Sharing, case: &mut Case) -> Result<(), Fail> {
         let ow = reparse(&v[k.min(v.len())..], "c03:compressed-unparseable@origin", "compressed output written at a non-zero stream offset")?;
         ensure!(ow == ou, "c03:compressed-mismatch@origin", "compressed output written at stream offset {} parses differently from the plain output: {}", k, diff(&ou, &ow));
     }
+    // "Serialising any packet": also one that was serialised before, and a copy of it that has grown since. A
+    // second compressed serialisation of the same value, then a clone with one of its own records appended to the
+    // additional section (a repeated owner and repeated RDATA names), both forms again.
+    if p.id % 4 == 2 && u.len() < 16000 {
+        case.class("serialised-again-and-grown");
+        let c2 = ser_compressed(&pk).map_err(|f| Fail::new("c03:compressed-failed", format!("second serialisation: {}", f.msg)))?;
+        ensure!(c2.len() <= u.len(), "c03:longer", "second compressed output is {} bytes, plain {}", c2.len(), u.len());
+        let oc2 = reparse(&c2, "c03:compressed-unparseable@again", "the second compressed output of the same packet")?;
+        ensure!(oc2 == ou, "c03:compressed-mismatch@again", "the second compressed output of the same packet parses differently from the plain output: {}", diff(&ou, &oc2));
+        let twin = pk.answers.last().or(pk.name_servers.last()).or(pk.additional_records.first()).cloned();
+        if let Some(r) = twin {
+            let mut grown = pk.clone();
+            grown.additional_records.push(r);
+            // the plain form of the grown packet is the yardstick; if it is refused or does not parse, no claim
+            if let Ok(u3) = ser_plain(&grown) {
+                if let Ok(ou3) = reparse(&u3, "c03:plain-unparseable", "plain output") {
+                    let c3 = ser_compressed(&grown).map_err(|f| Fail::new("c03:compressed-failed", format!("grown copy: {}", f.msg)))?;
+                    ensure!(c3.len() <= u3.len(), "c03:longer", "compressed output of the grown copy is {} bytes, plain {}", c3.len(), u3.len());
+                    let oc3 = reparse(&c3, "c03:compressed-unparseable@grown", "compressed output of a copy that has grown since the first serialisation")?;
+                    ensure!(oc3 == ou3, "c03:compressed-mismatch@grown", "compressed output of a copy that has grown since the first serialisation parses differently from its plain output: {}", diff(&ou3, &oc3));
+                }
+            }
+        }
+    }
     // the writer-based entry point on a buffer that is being reused: rewound to 0 (or to a small offset) while it
     // still holds an earlier, longer message
     if s.filler_at % 4 == 3 && u.len() < 8192 {
@@ -114,7 +138,7 @@ fn strategy(t: Tier) -> BoxedStrategy<Sharing> {
 pub fn def() -> CheckDef {
     CheckDef {
         id: "C03",
-        rule: "proptest: packets as in C02 whose owner, question and RDATA names come from suffix trees over a tiny label pool (constant sharing; pairs differing only in a leading or trailing label), with filler records that move later names just below / at / above offset 16383 and up to 65535 bytes; oracle observe(parse(compressed)) == observe(parse(plain)) and len(compressed) <= len(plain), claimed for packets whose plain form round-trips to the model (otherwise the defect is C02's and no claim is made here); a quarter of the cases also write the compressed form at a non-zero stream offset, a quarter into a reused buffer that still holds a longer stale message (rewound to 0 or to a small offset), another quarter through a writer accepting 1..3 bytes per call. Non-trivial = the compressed output is strictly shorter (at least one pointer emitted); classes report messages over 16 KiB and names first written above 16383 that repeat",
+        rule: "proptest: packets as in C02 whose owner, question and RDATA names come from suffix trees over a tiny label pool (constant sharing; pairs differing only in a leading or trailing label), with filler records that move later names just below / at / above offset 16383 and up to 65535 bytes; oracle observe(parse(compressed)) == observe(parse(plain)) and len(compressed) <= len(plain), claimed for packets whose plain form round-trips to the model (otherwise the defect is C02's and no claim is made here); a quarter of the cases also write the compressed form at a non-zero stream offset, a quarter are serialised a second time and once more as a clone that has grown by a record, a quarter are written into a reused buffer that still holds a longer stale message (rewound to 0 or to a small offset), another quarter through a writer accepting 1..3 bytes per call. Non-trivial = the compressed output is strictly shorter (at least one pointer emitted); classes report messages over 16 KiB and names first written above 16383 that repeat",
         assumptions: vec!["same exclusions as C02"],
         sections: vec![Box::new(PropSection { name: "transparent", rule: "compressed == plain == model", strategy, cases: (200_000, 1_500_000), check })],
     }
